@@ -10,6 +10,7 @@ import (
 	"github.com/pentops/j5/gen/j5/schema/v1/schema_j5pb"
 	"github.com/pentops/j5/gen/j5/sourcedef/v1/sourcedef_j5pb"
 	"github.com/pentops/j5/internal/bcl/errpos"
+	"github.com/pentops/j5/lib/j5schema"
 	"google.golang.org/genproto/googleapis/api/annotations"
 	"google.golang.org/protobuf/proto"
 	"google.golang.org/protobuf/types/descriptorpb"
@@ -476,18 +477,18 @@ func HarnessConvertEnum() {
 // according to the symbolic flags.
 func verifRuled(kind int) *schema_j5pb.Field {
 	f := verifField(kind)
-	rules, list := ndBool("rules"), ndBool("listRules")
+	rules, list := verifDrawBool("rules"), verifDrawBool("listRules")
 	switch t := f.Type.(type) {
 	case *schema_j5pb.Field_String_:
 		if rules {
-			t.String_.Rules = &schema_j5pb.StringField_Rules{MinLength: verifU64Ptr("minLen"), MaxLength: verifU64Ptr("maxLen")}
+			t.String_.Rules = &schema_j5pb.StringField_Rules{MinLength: verifDrawU64Ptr("minLen"), MaxLength: verifDrawU64Ptr("maxLen")}
 		}
 		if list {
 			t.String_.ListRules = &list_j5pb.OpenTextRules{}
 		}
 	case *schema_j5pb.Field_Bool:
 		if rules {
-			t.Bool.Rules = &schema_j5pb.BoolField_Rules{Const: verifBoolPtr("const")}
+			t.Bool.Rules = &schema_j5pb.BoolField_Rules{Const: verifDrawBoolPtr("const")}
 		}
 		if list {
 			t.Bool.ListRules = &list_j5pb.BoolRules{}
@@ -495,10 +496,21 @@ func verifRuled(kind int) *schema_j5pb.Field {
 	case *schema_j5pb.Field_Integer:
 		if rules {
 			t.Integer.Rules = &schema_j5pb.IntegerField_Rules{}
-			if ndBool("hasMax") {
-				v := ndInt64("max")
+			if verifDrawBool("hasMax") {
+				v := verifDrawI64("max")
+				// admissible: inside the value range of the format
+				switch kind {
+				case fInt32:
+					verifAssume(v >= -1<<31)
+					verifAssume(v <= 1<<31-1)
+				case fUint32:
+					verifAssume(v >= 0)
+					verifAssume(v <= 1<<32-1)
+				case fUint64:
+					verifAssume(v >= 0)
+				}
 				t.Integer.Rules.Maximum = &v
-				t.Integer.Rules.ExclusiveMaximum = verifBoolPtr("exMax")
+				t.Integer.Rules.ExclusiveMaximum = verifDrawBoolPtr("exMax")
 			}
 		}
 		if list {
@@ -510,11 +522,16 @@ func verifRuled(kind int) *schema_j5pb.Field {
 		}
 	case *schema_j5pb.Field_Bytes:
 		if rules {
-			t.Bytes.Rules = &schema_j5pb.BytesField_Rules{MinLength: verifU64Ptr("minLen"), MaxLength: verifU64Ptr("maxLen")}
+			t.Bytes.Rules = &schema_j5pb.BytesField_Rules{MinLength: verifDrawU64Ptr("minLen"), MaxLength: verifDrawU64Ptr("maxLen")}
 		}
 	case *schema_j5pb.Field_Date:
 		if rules {
 			t.Date.Rules = &schema_j5pb.DateField_Rules{}
+			if verifDrawBool("dateMin") {
+				m := "2020-01-02"
+				t.Date.Rules.Minimum = &m
+				t.Date.Rules.ExclusiveMinimum = verifDrawBoolPtr("exMin")
+			}
 		}
 		if list {
 			t.Date.ListRules = &list_j5pb.DateRules{}
@@ -522,6 +539,11 @@ func verifRuled(kind int) *schema_j5pb.Field {
 	case *schema_j5pb.Field_Decimal:
 		if rules {
 			t.Decimal.Rules = &schema_j5pb.DecimalField_Rules{}
+			if verifDrawBool("decMax") {
+				m := "10.5"
+				t.Decimal.Rules.Maximum = &m
+				t.Decimal.Rules.ExclusiveMaximum = verifDrawBoolPtr("exMax")
+			}
 		}
 		if list {
 			t.Decimal.ListRules = &list_j5pb.DecimalRules{}
@@ -531,7 +553,7 @@ func verifRuled(kind int) *schema_j5pb.Field {
 			t.Timestamp.Rules = &schema_j5pb.TimestampField_Rules{}
 		}
 	case *schema_j5pb.Field_Key:
-		switch ndChoice("keyFormat", 5) {
+		switch verifDrawChoice("keyFormat", 5) {
 		case 1:
 			t.Key.Format = &schema_j5pb.KeyFormat{Type: &schema_j5pb.KeyFormat_Uuid{Uuid: &schema_j5pb.KeyFormat_UUID{}}}
 		case 2:
@@ -541,8 +563,13 @@ func verifRuled(kind int) *schema_j5pb.Field {
 		case 4:
 			t.Key.Format = &schema_j5pb.KeyFormat{Type: &schema_j5pb.KeyFormat_Informal_{Informal: &schema_j5pb.KeyFormat_Informal{}}}
 		}
-		if rules {
-			t.Key.Entity = &schema_j5pb.EntityKey{Type: &schema_j5pb.EntityKey_PrimaryKey{PrimaryKey: ndBool("primary")}}
+		if rules && !verifNoFlatten { // entity keys are singular properties
+			if verifDrawBool("primary") {
+				t.Key.Entity = &schema_j5pb.EntityKey{Type: &schema_j5pb.EntityKey_PrimaryKey{PrimaryKey: true}}
+			} else {
+				fk := "other.v1.foo"
+				t.Key.Entity = &schema_j5pb.EntityKey{Type: &schema_j5pb.EntityKey_ForeignKey{ForeignKey: &schema_j5pb.EntityRef{Package: "other.v1", Entity: fk}}}
+			}
 		}
 		if list {
 			t.Key.ListRules = &list_j5pb.KeyRules{}
@@ -551,7 +578,10 @@ func verifRuled(kind int) *schema_j5pb.Field {
 		if rules {
 			t.Object.Rules = &schema_j5pb.ObjectField_Rules{}
 		}
-		t.Object.Flatten = ndBool("flatten")
+		t.Object.Flatten = verifDrawBool("flatten")
+		if verifNoFlatten {
+			t.Object.Flatten = false // flattening only exists for singular object properties
+		}
 	case *schema_j5pb.Field_Oneof:
 		if rules {
 			t.Oneof.Rules = &schema_j5pb.OneofField_Rules{}
@@ -598,7 +628,10 @@ func verifCheckImports(fd *descriptorpb.FileDescriptorProto, msg *descriptorpb.D
 	}
 }
 
+var verifNoFlatten bool
+
 func HarnessFieldFeatureIsolation() {
+	verifNoFlatten = false
 	kind := ndChoice("kind", fKinds)
 	if only := verifParam("kind", -1); only >= 0 && only != kind {
 		return
@@ -1638,4 +1671,293 @@ func HarnessEntity() {
 		}
 	}
 	verifAssert(len(topicFile.Service) == 1+nSummaries, "exactly-publish-plus-summary-topics")
+}
+
+// ---------- C04: schema read back from the compiled descriptors equals the source ----------
+
+func verifUniverse(files []*descriptorpb.FileDescriptorProto) *j5schema.VerifUniverse {
+	u := j5schema.VerifNewUniverse(files...)
+	u.StubEnums["other.v1.Colour"] = []string{"COLOUR_UNSPECIFIED", "COLOUR_RED", "COLOUR_BLUE"}
+	u.StubOneofs["other.v1.ForeignOneof"] = true
+	return u
+}
+
+// verifNormaliseField rewrites a *source* field into the form the compiled
+// contract carries: inline object/oneof/enum become references to the nested
+// type (the reader names nested types Parent_Child), references get their full
+// package. Everything else — types, formats, rules, list rules, ext, flatten,
+// key formats, entity keys — must come back exactly as declared.
+func verifNormaliseField(f *schema_j5pb.Field, parent string, propName string) {
+	nestedRef := func() *schema_j5pb.Ref {
+		return &schema_j5pb.Ref{Package: "a.v1", Schema: parent + "_" + strcase.ToCamel(propName)}
+	}
+	switch t := f.Type.(type) {
+	case *schema_j5pb.Field_Object:
+		if _, inline := t.Object.Schema.(*schema_j5pb.ObjectField_Object); inline || t.Object.Schema == nil {
+			t.Object.Schema = &schema_j5pb.ObjectField_Ref{Ref: nestedRef()}
+		}
+	case *schema_j5pb.Field_Oneof:
+		if _, inline := t.Oneof.Schema.(*schema_j5pb.OneofField_Oneof); inline || t.Oneof.Schema == nil {
+			t.Oneof.Schema = &schema_j5pb.OneofField_Ref{Ref: nestedRef()}
+		}
+	case *schema_j5pb.Field_Enum:
+		if _, inline := t.Enum.Schema.(*schema_j5pb.EnumField_Enum); inline {
+			t.Enum.Schema = &schema_j5pb.EnumField_Ref{Ref: nestedRef()}
+		}
+	case *schema_j5pb.Field_Array:
+		verifNormaliseField(t.Array.Items, parent, propName)
+	case *schema_j5pb.Field_Map:
+		verifNormaliseField(t.Map.ItemSchema, parent, propName)
+	}
+}
+
+// verifDropEmptyRules: a rules message without any rule set says the same as
+// no rules message; both sides are normalised to nil before comparing.
+func verifDropEmptyRules(f *schema_j5pb.Field) {
+	if f == nil {
+		return
+	}
+	switch t := f.Type.(type) {
+	case *schema_j5pb.Field_String_:
+		if r := t.String_.Rules; r != nil && r.MinLength == nil && r.MaxLength == nil && r.Pattern == nil {
+			t.String_.Rules = nil
+		}
+	case *schema_j5pb.Field_Bytes:
+		if r := t.Bytes.Rules; r != nil && r.MinLength == nil && r.MaxLength == nil {
+			t.Bytes.Rules = nil
+		}
+	case *schema_j5pb.Field_Bool:
+		if r := t.Bool.Rules; r != nil && r.Const == nil {
+			t.Bool.Rules = nil
+		}
+	case *schema_j5pb.Field_Integer:
+		if r := t.Integer.Rules; r != nil {
+			// an explicit "exclusive: false" says the same as leaving the flag out
+			if r.ExclusiveMaximum != nil && !*r.ExclusiveMaximum {
+				r.ExclusiveMaximum = nil
+			}
+			if r.ExclusiveMinimum != nil && !*r.ExclusiveMinimum {
+				r.ExclusiveMinimum = nil
+			}
+		}
+		if r := t.Integer.Rules; r != nil && r.Minimum == nil && r.Maximum == nil && r.ExclusiveMinimum == nil && r.ExclusiveMaximum == nil && r.MultipleOf == nil {
+			t.Integer.Rules = nil
+		}
+	case *schema_j5pb.Field_Enum:
+		if r := t.Enum.Rules; r != nil && len(r.In) == 0 && len(r.NotIn) == 0 {
+			t.Enum.Rules = nil
+		}
+	case *schema_j5pb.Field_Date:
+		if r := t.Date.Rules; r != nil && r.Minimum == nil && r.Maximum == nil && r.ExclusiveMinimum == nil && r.ExclusiveMaximum == nil {
+			t.Date.Rules = nil
+		}
+	case *schema_j5pb.Field_Decimal:
+		if r := t.Decimal.Rules; r != nil && r.Minimum == nil && r.Maximum == nil && r.ExclusiveMinimum == nil && r.ExclusiveMaximum == nil {
+			t.Decimal.Rules = nil
+		}
+	case *schema_j5pb.Field_Timestamp:
+		if r := t.Timestamp.Rules; r != nil && r.Minimum == nil && r.Maximum == nil && r.ExclusiveMinimum == nil && r.ExclusiveMaximum == nil {
+			t.Timestamp.Rules = nil
+		}
+	case *schema_j5pb.Field_Object:
+		if r := t.Object.Rules; r != nil && r.MinProperties == nil && r.MaxProperties == nil {
+			t.Object.Rules = nil
+		}
+	case *schema_j5pb.Field_Oneof:
+		if t.Oneof.Rules != nil {
+			t.Oneof.Rules = nil // the message has no fields
+		}
+	case *schema_j5pb.Field_Array:
+		if r := t.Array.Rules; r != nil && r.MinItems == nil && r.MaxItems == nil && r.UniqueItems == nil {
+			t.Array.Rules = nil
+		}
+		verifDropEmptyRules(t.Array.Items)
+	case *schema_j5pb.Field_Map:
+		verifDropEmptyRules(t.Map.ItemSchema)
+	}
+}
+
+func HarnessSchemaReadBack() {
+	kind := ndChoice("kind", fKinds)
+	if only := verifParam("kind", -1); only >= 0 && only != kind {
+		return
+	}
+	tag := ":" + verifFieldName[kind]
+	card := ndChoice("cardinality", 3)
+	withRules := verifParam("rules", 1) == 1
+	required, optional := ndBool("required"), false
+	if !required && card == 0 { // proto3 'optional' does not exist for repeated and map fields
+		optional = ndBool("optional")
+	}
+	described := ndBool("description")
+	// build the same declaration twice: one copy is compiled (conversion mutates
+	// its input), the other is the expectation
+	var fields [2]*schema_j5pb.Field
+	var arrRules [2]*schema_j5pb.ArrayField_Rules
+	var choices struct {
+		rules, list bool
+	}
+	_ = choices
+	verifNoFlatten = card != 0
+	for k := 0; k < 2; k++ {
+		if k == 1 {
+			verifReplayDraws()
+		} else {
+			verifRecordDraws()
+		}
+		var f *schema_j5pb.Field
+		if withRules {
+			f = verifRuled(kind)
+		} else {
+			f = verifField(kind)
+		}
+		switch card {
+		case 1:
+			arr := &schema_j5pb.ArrayField{Items: f}
+			if withRules && verifDrawBool("arrayRules") {
+				arr.Rules = &schema_j5pb.ArrayField_Rules{MinItems: verifDrawU64Ptr("minItems"), MaxItems: verifDrawU64Ptr("maxItems"), UniqueItems: verifDrawBoolPtr("unique")}
+			}
+			arrRules[k] = arr.Rules
+			f = &schema_j5pb.Field{Type: &schema_j5pb.Field_Array{Array: arr}}
+		case 2:
+			f = &schema_j5pb.Field{Type: &schema_j5pb.Field_Map{Map: &schema_j5pb.MapField{ItemSchema: f}}}
+		}
+		fields[k] = f
+	}
+	mkProp := func(f *schema_j5pb.Field) *schema_j5pb.ObjectProperty {
+		p := &schema_j5pb.ObjectProperty{Name: "theField", Schema: f, Required: required, ExplicitlyOptional: optional}
+		if described {
+			p.Description = "what it is"
+		}
+		return p
+	}
+	src := verifSourceFile(verifObjectElement("Thing", []*schema_j5pb.ObjectProperty{mkProp(fields[0])}))
+	files, err := verifCompile(src)
+	if err != nil {
+		verifReach("not-compilable" + tag)
+		return // acceptance of the language is C07's subject
+	}
+	u := verifUniverse(files)
+	msg := u.Message("a.v1.Thing")
+	verifAssert(msg != nil, "compiled-message-present")
+	if msg == nil {
+		return
+	}
+	cache := j5schema.NewSchemaCache()
+	root, rerr := cache.Schema(msg)
+	verifAssert(rerr == nil, "compiled-schema-reflects"+tag)
+	if rerr != nil {
+		return
+	}
+	got := root.ToJ5Root().GetObject()
+	verifAssert(got != nil && got.Name == "Thing" && len(got.Properties) == 1, "object-with-its-property"+tag)
+	if got == nil || len(got.Properties) != 1 {
+		return
+	}
+	want := mkProp(fields[1])
+	verifNormaliseField(want.Schema, "Thing", "theField")
+	want.ProtoField = []int32{1}
+	if k := want.Schema.GetKey(); k != nil && k.Entity != nil && k.Entity.GetPrimaryKey() {
+		want.Required = true // documented: primary keys are always required
+	}
+	// recorded findings (only honoured while listed as open in known_findings.json)
+	verifKnownClass("c04-map-value-annotations", card == 2)
+	verifKnownClass("c04-key-format-not-carried", kind == fKey)
+	verifKnownClass("c04-array-item-ext-overwritten", card == 1 && (kind == fKey || kind == fDate || kind == fDecimal))
+	// representation-only differences: the key schema of a compiled map is
+	// always "string" (not declared in the source), and an array/map ext
+	// without any value is the same as no ext
+	if gm, wm := got.Properties[0].Schema.GetMap(), want.Schema.GetMap(); gm != nil && wm != nil {
+		wm.KeySchema = gm.KeySchema
+		if gm.Ext != nil && gm.Ext.SingleForm == nil && wm.Ext == nil {
+			gm.Ext = nil
+		}
+	}
+	if ga, wa := got.Properties[0].Schema.GetArray(), want.Schema.GetArray(); ga != nil && wa != nil {
+		if ga.Ext != nil && ga.Ext.SingleForm == nil && wa.Ext == nil {
+			ga.Ext = nil
+		}
+		if wa.Ext != nil && wa.Ext.SingleForm == nil && ga.Ext == nil {
+			wa.Ext = nil
+		}
+	}
+	verifDropEmptyRules(got.Properties[0].Schema)
+	verifDropEmptyRules(want.Schema)
+	verifAssertDeepEqual(got.Properties[0], want, "read-back-property-equals-source"+tag)
+}
+
+// ---- recorded draws: build the same symbolic structure twice from one set of choices ----
+
+var verifDraws struct {
+	replay bool
+	pos    int
+	bools  []bool
+	u64s   []uint64
+	i64s   []int64
+	ints   []int
+}
+
+func verifRecordDraws() {
+	verifDraws.replay, verifDraws.pos = false, 0
+	verifDraws.bools, verifDraws.u64s, verifDraws.i64s, verifDraws.ints = nil, nil, nil, nil
+}
+func verifReplayDraws() { verifDraws.replay, verifDraws.pos = true, 0 }
+
+func verifDrawBool(name string) bool {
+	if verifDraws.replay {
+		v := verifDraws.bools[0]
+		verifDraws.bools = verifDraws.bools[1:]
+		return v
+	}
+	v := ndBool(name)
+	verifDraws.bools = append(verifDraws.bools, v)
+	return v
+}
+func verifDrawU64(name string) uint64 {
+	if verifDraws.replay {
+		v := verifDraws.u64s[0]
+		verifDraws.u64s = verifDraws.u64s[1:]
+		return v
+	}
+	v := ndUint64(name)
+	verifDraws.u64s = append(verifDraws.u64s, v)
+	return v
+}
+func verifDrawI64(name string) int64 {
+	if verifDraws.replay {
+		v := verifDraws.i64s[0]
+		verifDraws.i64s = verifDraws.i64s[1:]
+		return v
+	}
+	v := ndInt64(name)
+	verifDraws.i64s = append(verifDraws.i64s, v)
+	return v
+}
+func verifDrawChoice(name string, n int) int {
+	if verifDraws.replay {
+		v := verifDraws.ints[0]
+		verifDraws.ints = verifDraws.ints[1:]
+		return v
+	}
+	v := ndChoice(name, n)
+	verifDraws.ints = append(verifDraws.ints, v)
+	return v
+}
+func verifDrawBoolPtr(name string) *bool {
+	switch verifDrawChoice(name, 3) {
+	case 1:
+		f := false
+		return &f
+	case 2:
+		t := true
+		return &t
+	}
+	return nil
+}
+func verifDrawU64Ptr(name string) *uint64 {
+	if verifDrawBool(name + "Set") {
+		v := verifDrawU64(name)
+		return &v
+	}
+	return nil
 }
